@@ -27,6 +27,8 @@ Decides:
  B builders              the wrappers are built with catch=false and store the user's value / function / message in the field the eval reads (wiring table).
  K6b conversion arms     parse_os_str converts every target except OsString / PathBuf through FromStr of the exact to_str() view and fails on
                            non-UTF-8 input; nothing lossy can reach a value (shared with C02).
+ K4b retry            the adjacent-command retry should look at the failure it replaces (it does not: known finding, a final conversion
+                           failure inside an adjacent command can be replaced by the retry's success and lose its text).
 Does not decide: which error survives for a particular nesting inside alternatives."""
 import re
 from core import *
@@ -34,6 +36,7 @@ from dataflow import *
 from cfgq import *
 from absint import *
 from parsers import *
+import scopes
 
 LEVEL = 'other'
 EXPLANATION = __doc__
@@ -75,6 +78,7 @@ def run(ctx):
         ctx.guard(c08.keep_only, ctx, lambda: c10.usage_fallback(ctx, cfg, ctx.look(fs.one(r'^info::OptionParser::<T>::run_subparser$')), 'U.usage-fallback'), lambda o: True, 'U.usage-fallback')
         ctx.guard(c08.keep_only, ctx, lambda: c18.who(ctx, cfg, fs), lambda o: o.key.startswith(('params::', '<params::')) and 'std::env::' in o.key, 'E.env-absence')
         ctx.guard(k5, ctx, cfg, fs)
+        ctx.guard(retry_looks_at_failure, ctx, cfg, fs)
         import wiring
         ctx.guard(wiring.builders, ctx, cfg, fs, 'B.builders', r'^(Parser::(many|some|optional|collect|count|last|fallback|fallback_with|guard|parse|map|hide)|structs::\w+::<.*>::catch|pure|pure_with|fail|params::NamedArg::(switch|flag|req_flag)|params::build_flag_parser)$')
         ctx.guard(loop_conditions, ctx, cfg, fs)
@@ -392,6 +396,30 @@ def k4(ctx, cfg, fs):
         ctx.ob('K4.discipline', '%s:%s:%s' % (short(o), short(c.name), cls), ok,
                '%s: result of %s is %s (%s): %s' % (short(b.path), short(c.name), cls, d, CONVERSION_SITES.get(o, 'NOT a listed Err->Ok conversion site: a failure of a present item can be turned into success here')),
                where=c.where(), cfg=cfg)
+
+def retry_looks_at_failure(ctx, cfg, fs):
+    """an adjacent command that failed is tried again on the block it managed to consume, and a success of that retry replaces the
+    failure.  That is right when the failure was "something is left over" (the next command of a chain) - and wrong when it was a
+    FINAL failure of an item that is present (`cmd --n abc` with `--n` under fallback: the first run fails with the conversion
+    error and consumes nothing, the retry on the now empty block succeeds with the default, and the parent reports `--n` as
+    unexpected): the conversion text is lost.  The retry would have to look at what kind of failure it is about to replace."""
+    b = ctx.look(fs.one(r'^<params::ParseCommand<T> as Parser<T>>::eval$'))
+    runs = [c for c in b.calls() if c.is_(r'OptionParser::<T>::run_subparser$')]
+    firsts = [c for c in runs if scopes.state_id(b, c.args[1], c.bb) == 'args' and any(x.is_(r'State::adjacently_available_from$') and b.dominates(x.bb, c.bb) for x in b.calls())]
+    retries = [c for c in runs if c not in firsts and any(b.dominates(f.bb, c.bb) for f in firsts)]
+    if len(firsts) != 1 or len(retries) != 1:
+        raise Broken('ParseCommand::eval: adjacent first run / retry not identified (%d/%d)' % (len(firsts), len(retries)))
+    first, retry = firsts[0], retries[0]
+    # does any test between the failure of the first run and the retry look at the first error?
+    looks = []
+    for sw in switches(b):
+        if not (b.dominates(first.bb, sw.b) and b.reaches(sw.b, [retry.bb])):
+            continue
+        rs = sw.roots if sw.kind != 'enum' else provenance(b, sw.place, sw.discr_site[0], sw.discr_site[1], through=[r'Result::<.*>::map_err'])
+        if any(r.kind == 'call' and r.call.bb == first.bb and any(x.startswith('as Err') for x in r.path) and len(r.path) > 1 for r in rs):
+            looks.append(b.where(sw.b))
+    ctx.ob('K4.discipline', 'ParseCommand::eval:retry-looks-at-the-failure', bool(looks),
+           'the adjacent-command retry replaces the failure of the first run after inspecting it at %s' % (looks or 'NO point: any failure, also a final conversion / guard failure of a present item, is replaced when the retry succeeds'), where=retry.where(), cfg=cfg)
 
 def k5(ctx, cfg, fs):
     users = [b for b in fs.bodies.values() if any(c.is_(r'^structs::parse_option$') for c in b.calls())]
